@@ -23,6 +23,18 @@ theorem ArcTy.min_idem (a : ArcTy) : a.min a = a := by cases a <;> rfl
     unify (.struct ys d) (.sc s) = .bot := by simp [unify]
 theorem unify_struct_struct (xs : Slots) (c : Bool) (ys : Slots) (d : Bool) :
     unify (.struct xs c) (.struct ys d) = normS (mergeSlots xs c ys d) (c || d) := by simp [unify]
+@[simp] theorem unify_sc_list (s : Sc) (ys : Vals) : unify (.sc s) (.list ys) = .bot := by
+  simp [unify]
+@[simp] theorem unify_list_sc (s : Sc) (ys : Vals) : unify (.list ys) (.sc s) = .bot := by
+  simp [unify]
+@[simp] theorem unify_struct_list (xs : Slots) (c : Bool) (ys : Vals) :
+    unify (.struct xs c) (.list ys) = .bot := by simp [unify]
+@[simp] theorem unify_list_struct (xs : Slots) (c : Bool) (ys : Vals) :
+    unify (.list ys) (.struct xs c) = .bot := by simp [unify]
+theorem unify_list_list (xs ys : Vals) : unify (.list xs) (.list ys) = listRes (zipU xs ys) := by
+  simp [unify]
+@[simp] theorem listRes_some (r : Vals) : listRes (some r) = normL r := rfl
+@[simp] theorem listRes_none : listRes none = .bot := rfl
 @[simp] theorem closeSlot_none (c : Bool) : closeSlot c .none = .none := rfl
 theorem closeSlot_some (c : Bool) (t : ArcTy) (v : Val) :
     closeSlot c (.some t v) = if c then .some t .bot else .some t v := rfl
@@ -38,13 +50,21 @@ theorem unify_comm : ∀ a b : Val, unify a b = unify b a
   | .top, b => by simp
   | .sc s, .bot => by simp
   | .sc s, .top => by simp
-  | .sc s, .sc t => by simp [unify, scMeet_comm s t]
-  | .sc s, .struct _ _ => by simp [unify]
+  | .sc s, .sc t => by simp [scMeet_comm s t]
+  | .sc s, .struct _ _ => by simp
+  | .sc s, .list _ => by simp
   | .struct _ _, .bot => by simp
   | .struct xs c, .top => by simp
-  | .struct _ _, .sc _ => by simp [unify]
+  | .struct _ _, .sc _ => by simp
   | .struct xs c, .struct ys d => by
     simp only [unify]; rw [mergeSlots_comm xs c ys d, Bool.or_comm]
+  | .struct _ _, .list _ => by simp
+  | .list _, .bot => by simp
+  | .list _, .top => by simp
+  | .list _, .sc _ => by simp
+  | .list _, .struct _ _ => by simp
+  | .list xs, .list ys => by
+    simp only [unify_list_list]; rw [zipU_comm xs ys]
 theorem mergeSlots_comm : ∀ (xs : Slots) (c : Bool) (ys : Slots) (d : Bool),
     mergeSlots xs c ys d = mergeSlots ys d xs c
   | .nil, c, .nil, d => by simp [mergeSlots, closeBy]
@@ -59,6 +79,12 @@ theorem mergeSlot_comm : ∀ (x : Slot) (c : Bool) (y : Slot) (d : Bool),
   | .some t v, c, .none, d => by simp [mergeSlot]
   | .some t v, c, .some t' w, d => by
     simp only [mergeSlot]; rw [unify_comm v w, ArcTy.min_comm]
+theorem zipU_comm : ∀ (xs ys : Vals), zipU xs ys = zipU ys xs
+  | .nil, .nil => rfl
+  | .nil, .cons _ _ => by simp [zipU]
+  | .cons _ _, .nil => by simp [zipU]
+  | .cons x xs, .cons y ys => by
+    simp only [zipU]; rw [unify_comm x y, zipU_comm xs ys]
 end
 
 /-! ### closing -/
@@ -192,6 +218,76 @@ theorem hasRegBot_mergeSlots_right (xs : Slots) (c : Bool) (ys : Slots) (d : Boo
     unify (.struct xs c) (scMeet s t) = .bot := by
   unfold scMeet; split <;> simp
 
+@[simp] theorem unify_scMeet_list (s t : Sc) (xs : Vals) :
+    unify (scMeet s t) (.list xs) = .bot := by
+  unfold scMeet; split <;> simp
+
+@[simp] theorem unify_list_scMeet (s t : Sc) (xs : Vals) :
+    unify (.list xs) (scMeet s t) = .bot := by
+  unfold scMeet; split <;> simp
+
+@[simp] theorem unify_normS_list (xs : Slots) (c : Bool) (ys : Vals) :
+    unify (normS xs c) (.list ys) = .bot := by
+  unfold normS; split <;> simp
+
+@[simp] theorem unify_list_normS (xs : Slots) (c : Bool) (ys : Vals) :
+    unify (.list ys) (normS xs c) = .bot := by
+  unfold normS; split <;> simp
+
+@[simp] theorem unify_sc_listRes (s : Sc) (o : Option Vals) : unify (.sc s) (listRes o) = .bot := by
+  cases o <;> simp only [listRes, normL] <;> (try split) <;> simp
+
+@[simp] theorem unify_listRes_sc (s : Sc) (o : Option Vals) : unify (listRes o) (.sc s) = .bot := by
+  cases o <;> simp only [listRes, normL] <;> (try split) <;> simp
+
+@[simp] theorem unify_struct_listRes (xs : Slots) (c : Bool) (o : Option Vals) :
+    unify (.struct xs c) (listRes o) = .bot := by
+  cases o <;> simp only [listRes, normL] <;> (try split) <;> simp
+
+@[simp] theorem unify_listRes_struct (xs : Slots) (c : Bool) (o : Option Vals) :
+    unify (listRes o) (.struct xs c) = .bot := by
+  cases o <;> simp only [listRes, normL] <;> (try split) <;> simp
+
+/-! ### a bottom list element stays one -/
+
+theorem isBot_iff (v : Val) : v.isBot = true ↔ v = .bot := by
+  cases v <;> simp [Val.isBot]
+
+theorem hasBot_zipU : ∀ (xs ys r : Vals), zipU xs ys = some r → xs.hasBot = true → r.hasBot = true
+  | .nil, _, _, _, h => by simp [Vals.hasBot] at h
+  | .cons _ _, .nil, _, h, _ => by simp [zipU] at h
+  | .cons x xs, .cons y ys, r, h, hb => by
+    simp only [zipU] at h
+    cases hz : zipU xs ys with
+    | none => simp [hz] at h
+    | some r' =>
+      simp only [hz, Option.some.injEq] at h
+      subst h
+      simp only [Vals.hasBot, Bool.or_eq_true] at hb ⊢
+      rcases hb with hb | hb
+      · left; rw [(isBot_iff x).1 hb]; simp [Val.isBot]
+      · right; exact hasBot_zipU xs ys r' hz hb
+
+theorem hasBot_zipU_right (xs ys r : Vals) (h : zipU xs ys = some r) (hb : ys.hasBot = true) :
+    r.hasBot = true := by
+  rw [zipU_comm] at h; exact hasBot_zipU ys xs r h hb
+
+theorem listRes_hasBot_left (xs ys : Vals) (h : xs.hasBot = true) : listRes (zipU xs ys) = .bot := by
+  cases hz : zipU xs ys with
+  | none => rfl
+  | some r => simp [listRes, normL, hasBot_zipU xs ys r hz h]
+
+theorem listRes_hasBot_right (xs ys : Vals) (h : ys.hasBot = true) : listRes (zipU xs ys) = .bot := by
+  rw [zipU_comm]; exact listRes_hasBot_left ys xs h
+
+theorem unify_normL_list (r zs : Vals) :
+    unify (normL r) (.list zs) = if r.hasBot then .bot else listRes (zipU r zs) := by
+  unfold normL; split <;> simp [unify_list_list]
+
+theorem unify_list_normL (xs r : Vals) :
+    unify (.list xs) (normL r) = if r.hasBot then .bot else listRes (zipU xs r) := by
+  unfold normL; split <;> simp [unify_list_list]
+
 theorem scMeet_assoc (s t u : Sc) :
     unify (scMeet s t) (.sc u) = unify (.sc s) (scMeet t u) := by
   have h := Sc.meet_assoc s t u
@@ -217,6 +313,51 @@ theorem unify_assoc : ∀ a b c : Val, unify (unify a b) c = unify a (unify b c)
   | .struct xs c, .sc t, .sc u => by simp
   | .struct xs c, .sc t, .struct zs e => by simp
   | .struct xs c, .struct ys d, .sc u => by simp [unify_struct_struct]
+  | .sc _, .sc _, .list _ => by simp
+  | .sc _, .struct _ _, .list _ => by simp
+  | .sc _, .list _, .sc _ => by simp
+  | .sc _, .list _, .struct _ _ => by simp
+  | .sc _, .list _, .list _ => by simp [unify_list_list]
+  | .struct _ _, .sc _, .list _ => by simp
+  | .struct _ _, .struct _ _, .list _ => by simp [unify_struct_struct]
+  | .struct _ _, .list _, .sc _ => by simp
+  | .struct _ _, .list _, .struct _ _ => by simp
+  | .struct _ _, .list _, .list _ => by simp [unify_list_list]
+  | .list _, .sc _, .sc _ => by simp
+  | .list _, .sc _, .struct _ _ => by simp
+  | .list _, .sc _, .list _ => by simp
+  | .list _, .struct _ _, .sc _ => by simp
+  | .list _, .struct _ _, .struct _ _ => by simp [unify_struct_struct]
+  | .list _, .struct _ _, .list _ => by simp
+  | .list _, .list _, .sc _ => by simp [unify_list_list]
+  | .list _, .list _, .struct _ _ => by simp [unify_list_list]
+  | .list xs, .list ys, .list zs => by
+    simp only [unify_list_list]
+    have hz := zipU_assoc xs ys zs
+    cases hxy : zipU xs ys with
+    | none =>
+      cases hyz : zipU ys zs with
+      | none => simp
+      | some r' =>
+        simp only [hxy, hyz, Option.bind_none, Option.bind_some] at hz
+        simp only [listRes_some, listRes_none, unify_list_normL, ← hz, unify_bot_left]
+        split <;> rfl
+    | some r =>
+      cases hyz : zipU ys zs with
+      | none =>
+        simp only [hxy, hyz, Option.bind_none, Option.bind_some] at hz
+        simp only [listRes_some, listRes_none, unify_normL_list, hz, unify_bot_right]
+        split <;> rfl
+      | some r' =>
+        simp only [hxy, hyz, Option.bind_some] at hz
+        simp only [listRes_some, unify_normL_list, unify_list_normL, hz]
+        by_cases h1 : r.hasBot = true
+        · have := listRes_hasBot_left r zs h1
+          rw [hz] at this
+          simp [h1, this]
+        · by_cases h2 : r'.hasBot = true
+          · simp [h1, h2, listRes_hasBot_right xs r' h2]
+          · simp [h1, h2]
   | .struct xs c, .struct ys d, .struct zs e => by
     simp only [unify_struct_struct]
     have hm := mergeSlots_assoc xs c ys d zs e
@@ -257,6 +398,35 @@ theorem mergeSlot_assoc : ∀ (x : Slot) (c : Bool) (y : Slot) (d : Bool) (z : S
     simp only [mergeSlot]
     rw [unify_assoc v w u, ArcTy.min_assoc]
 termination_by structural x _ _ _ _ _ => x
+theorem zipU_assoc : ∀ (xs ys zs : Vals),
+    (zipU xs ys).bind (fun r => zipU r zs) = (zipU ys zs).bind (fun r => zipU xs r)
+  | .nil, .nil, .nil => by simp [zipU]
+  | .nil, .nil, .cons _ _ => by simp [zipU]
+  | .nil, .cons y ys, .nil => by simp [zipU]
+  | .nil, .cons y ys, .cons z zs => by
+    cases h : zipU ys zs <;> simp [zipU, h]
+  | .cons x xs, .nil, .nil => by simp [zipU]
+  | .cons x xs, .nil, .cons _ _ => by simp [zipU]
+  | .cons x xs, .cons y ys, .nil => by
+    cases h : zipU xs ys <;> simp [zipU, h]
+  | .cons x xs, .cons y ys, .cons z zs => by
+    have ih := zipU_assoc xs ys zs
+    cases hxy : zipU xs ys with
+    | none =>
+      cases hyz : zipU ys zs with
+      | none => simp [zipU, hxy, hyz]
+      | some r' =>
+        simp only [hxy, hyz, Option.bind_none, Option.bind_some] at ih
+        simp [zipU, hxy, hyz, ← ih]
+    | some r =>
+      cases hyz : zipU ys zs with
+      | none =>
+        simp only [hxy, hyz, Option.bind_none, Option.bind_some] at ih
+        simp [zipU, hxy, hyz, ih]
+      | some r' =>
+        simp only [hxy, hyz, Option.bind_some] at ih
+        simp [zipU, hxy, hyz, ih, unify_assoc x y z]
+termination_by structural xs _ _ => xs
 end
 
 end CueVerif.Core
